@@ -162,10 +162,22 @@ class Sx:
         c.obligations += 1
         if isinstance(cond, (SymReal, SymInt)):
             cond = cond != 0
+        # an obligation discharged on a path prefix holds on every path that extends the prefix
+        # (re-execution is deterministic), so it is not re-queried there
+        occ = c.counter(('ob', c.pos, label))
+        key = (tuple(c.prefix[:c.pos]), label, occ, c.assumes)
+        if self.sym and c.cache is not None and key in c.cache:
+            c.discharged += 1
+            c.cached += 1
+            return True
         if isinstance(cond, SymBool):
             neg = z3.Not(cond.z)
             keep = c.model
+            t0 = time.time()
             r = c._check(neg)
+            dt = time.time() - t0
+            if dt > c.slow.get(label, 0):
+                c.slow[label] = dt
             if r == z3.sat:
                 m = c.solver.model()
                 if isinstance(robust, SymBool) and self.sym:
@@ -188,6 +200,8 @@ class Sx:
             c.model = keep
             c.get_model()  # non-vacuity: the path (with its assumptions) is satisfiable
             c.discharged += 1
+            if self.sym and c.cache is not None:
+                c.cache.add(key)
             return True
         if not cond:
             m = c.get_model()
@@ -304,9 +318,10 @@ def eval_observed(ctx, model):
     return out
 
 
-def run_once(harness, prefix, mode, model, timeout_ms, tier):
+def run_once(harness, prefix, mode, model, timeout_ms, tier, cache=None):
     """one execution of the harness along one decision prefix"""
     ctx = core.Ctx(prefix, timeout_ms=timeout_ms, mode=mode, model=model)
+    ctx.cache = cache
     core.CUR = ctx
     sx = Sx(ctx, tier)
     status = 'ok'
@@ -349,13 +364,15 @@ def explore(harness, *, tier='quick', timeout_ms=20000, max_paths=20000, budget_
               unconfirmed=[], assumes=0, forks=0, twin_ok=0, twin_mismatch=[], samples=[],
               exhausted=False, notes=[], real_checked=0, nontrivial_paths=0)
     seen_labels = set()
+    cache = set()
+    slow = {}
     confirmed_labels = set()
     twins_done = 0
     while work:
         if st['paths'] + st['cut'] >= max_paths or time.time() - t0 > budget_s:
             break
         prefix = work.pop()
-        ctx, status, err = run_once(harness, prefix, 'sym', None, timeout_ms, tier)
+        ctx, status, err = run_once(harness, prefix, 'sym', None, timeout_ms, tier, cache)
         work.extend(ctx.pending)
         st['queries'] += ctx.queries
         st['solver_s'] += ctx.solver_s
@@ -376,7 +393,11 @@ def explore(harness, *, tier='quick', timeout_ms=20000, max_paths=20000, budget_
                 st['paths'] += 1
         if status in ('ok', 'cut', 'error', 'unmodelled'):
             st['obligations'] += ctx.obligations
-            st['nontrivial_paths'] += 1 if ctx.discharged > 0 else 0
+            st['nontrivial_paths'] += 1 if ctx.discharged > ctx.cached else 0
+            st['cached'] = st.get('cached', 0) + ctx.cached
+            for kk, vv in ctx.slow.items():
+                if vv > slow.get(kk, 0):
+                    slow[kk] = vv
             st['discharged'] += ctx.discharged
             st['assumes'] += ctx.assumes
             st['inconclusive'].extend(ctx.inconclusive)
@@ -449,6 +470,7 @@ def explore(harness, *, tier='quick', timeout_ms=20000, max_paths=20000, budget_
                 except (Infeasible, Unknown) as e:
                     st['notes'].append(f"twin skipped: {type(e).__name__}")
     st['exhausted'] = not work
+    st['slowest'] = sorted(((round(v, 2), k) for k, v in slow.items()), reverse=True)[:5]
     st['wall_s'] = time.time() - t0
     core.CUR = None
     return st
